@@ -48,10 +48,10 @@ ASSUMPTIONS = ["beam and plasma share one scene-graph root and are related by a 
                "stopping rates and ion densities are non-negative; neutrals (Z=0, documented n_eq undefined) have null rates",
                "profiles are smooth on the scale of the attenuator step (tolerance is computed from their derivatives)",
                "every scene is built in its final placement before the first density evaluation (history effects: C01)"]
-QUICK = dict(cases=260, workers=2, timecap=45)
+QUICK = dict(cases=220, workers=2, timecap=40)
 THOROUGH = dict(cases=26000, workers=16, timecap=600)
-REQUIRED = {"flux_nostop": 100, "flux_atten": 500, "envelope": 600, "monotone": 3000, "zero_z": 1500, "zero_clamp": 500,
-            "dir_unit": 1500, "dir_stream": 2500, "rate_evaluations": 1000}
+REQUIRED = {"flux_source": 70, "flux_nostop": 150, "flux_atten": 500, "envelope": 1500, "monotone": 5000, "zero_z": 2500,
+            "zero_clamp": 5000, "dir_unit": 2000, "dir_stream": 3000, "rate_evaluations": 10000}
 
 # own constants (CODATA 2018; cherab mixes 2018 and 2022 => never compare physics below 1e-7)
 E_CH = 1.602176634e-19
@@ -569,14 +569,10 @@ def _flags(case):
     ions = [s for s in case["species"] if s["Z"] > 0]
     if any(s["Z"] >= 2 for s in ions):
         f.append("highZ")
-    if len(ions) > 1:
-        f.append("multi")
     if case["flows"]:
         f.append("flow")
     if case["place"] != "identity":
         f.append("placed")
-    if case["attenuator"]["clamp_to_zero"]:
-        f.append("clamp")
     return "+".join(f)
 
 
@@ -672,31 +668,9 @@ def run_case(case, ctx):
                  z=[float(z) for z in zs], m0=[float(x) for x in m0])
     cf = (1.0 - math.exp(-0.5 * cs * cs)) if clamp else 1.0
     flags = _flags(case)
+    ctag = "clamp" if clamp else "noclamp"
+    env_ok = True
     if finite:
-        want = lam * cf
-        if stopc == "none":
-            ctx.close(m0, want, "flux:no-stopping:level:" + flags,
-                      "without stopping the cross-section integral of the density differs from P/(E m e)/v" + (" x (1-exp(-c^2/2))" if clamp else ""),
-                      atol=1e-7 * want, monitor="flux_nostop", z=[float(z) for z in zs])
-            if want[0] > 0:
-                ctx.close(m0 / m0[0] if m0[0] > 0 else m0, np.ones(len(zs)), "flux:no-stopping:z-dependence:" + flags,
-                          "without stopping the particle flux through the cross-section changes with z", atol=1e-11,
-                          monitor="flux_nostop_z", z=[float(z) for z in zs], div=[b["divergence_x"], b["divergence_y"]])
-                ctx.nontrivial()
-        else:
-            # comparisons whose computed tolerance is below a tenth of the attenuation reached at that z (or at the
-            # 1e-6 level near the source) are the deciding ones; the rest are still judged but counted separately
-            tight = tol_rel <= np.maximum(1e-6, -0.1 * np.expm1(-tau))
-            for msk, mon in ((tight, "flux_atten"), (~tight, "flux_atten_loose")):
-                if msk.any():
-                    ctx.close(m0[msk], want[msk], "flux:attenuated:" + flags,
-                              "cross-section integral of the density differs from P/(E m e)/v exp(-int_0^z S/v) beyond the discretisation bound",
-                              atol=(tol_rel * want)[msk], monitor=mon, z=[float(z) for z in zs[msk]], tau=[float(t) for t in tau[msk]],
-                              tol_rel=[float(t) for t in tol_rel[msk]],
-                              got_over_want=[float(g_ / w_) if w_ > 0 else None for g_, w_ in zip(m0[msk], want[msk])])
-            att = -math.expm1(-tau[-1])
-            if lam0 > 0 and tau[-1] >= 0.01 and tol_rel[-1] < 0.1 * att:
-                ctx.nontrivial()
         # ---- envelope: normalised second moments ----
         if clamp:
             e = math.exp(-0.5 * cs * cs)
@@ -707,15 +681,50 @@ def run_case(case, ctx):
         if ok.any():
             wx = np.array([sx(z) ** 2 for z in zs]) * fac
             wy = np.array([sy(z) ** 2 for z in zs]) * fac
-            ctx.close((mxx[ok] / m0[ok]), wx[ok], "envelope:second-moment-x:" + ("clamp" if clamp else "noclamp"),
+            env_ok = ctx.close((mxx[ok] / m0[ok]), wx[ok], "envelope:second-moment-x:" + ("clamp" if clamp else "noclamp"),
                       "second moment <x^2> of the cross-section differs from the documented sigma_x(z)^2 = sigma^2 + (z tan a_x)^2",
                       rtol=1e-9, monitor="envelope", z=[float(z) for z in zs[ok]])
-            ctx.close((myy[ok] / m0[ok]), wy[ok], "envelope:second-moment-y:" + ("clamp" if clamp else "noclamp"),
+            env_ok = ctx.close((myy[ok] / m0[ok]), wy[ok], "envelope:second-moment-y:" + ("clamp" if clamp else "noclamp"),
                       "second moment <y^2> of the cross-section differs from the documented sigma_y(z)^2 = sigma^2 + (z tan a_y)^2",
-                      rtol=1e-9, monitor="envelope", z=[float(z) for z in zs[ok]])
+                      rtol=1e-9, monitor="envelope", z=[float(z) for z in zs[ok]]) and env_ok
         else:
             ctx.skip("zero beam density: envelope moments undefined")
 
+    if finite:
+        # (1) source level: flux at z = 0 is P/(E m e)/v (times the truncated-Gaussian factor when clamping is on)
+        ctx.close(m0[0], lam0 * cf, "flux:source-level:" + ctag,
+                  "cross-section integral of the density at z = 0 differs from P/(E m e)/v" + (" x (1-exp(-c^2/2))" if clamp else ""),
+                  rtol=1e-7, monitor="flux_source", sigma=sig, element=b["element"], energy=b["energy"], power=b["power"])
+        if lam0 == 0.0:
+            ctx.check(bool(np.all(m0 == 0.0)), "flux:zero-power-nonzero-density", "beam of zero power has non-zero density",
+                      monitor="flux_zero_power", m0=[float(x) for x in m0])
+        elif m0[0] <= 0.0:
+            ctx.skip("zero density at z = 0: z-dependence not judged (source-level violation reported)")
+        elif not env_ok:
+            # the quadrature nodes follow the documented envelope; with a different envelope the z-dependence of the
+            # quadrature result is not attributable to the line density
+            ctx.skip("envelope violated: z-dependence of the flux not judged")
+        elif stopc == "none":
+            # (2) no stopping: the flux through the cross-section is the same at every z, for any divergence
+            ctx.close(m0 / m0[0], np.ones(len(zs)), "flux:no-stopping:z-dependence:%s:%s" % (ctag, "parallel" if case["div_class"] == "zero" else "diverging"),
+                      "without stopping the particle flux through the cross-section changes with z", atol=1e-11,
+                      monitor="flux_nostop", z=[float(z) for z in zs], div=[b["divergence_x"], b["divergence_y"]])
+            ctx.nontrivial()
+        else:
+            # (3) attenuation factor.  Comparisons whose computed tolerance is below a tenth of the attenuation reached
+            # at that z are the deciding ones; the rest are still judged but counted separately.
+            want = np.exp(-tau)
+            got = m0 / m0[0]
+            tight = (tol_rel <= -0.1 * np.expm1(-tau)) & (tau > 0)
+            for msk, mon in ((tight, "flux_atten"), (~tight, "flux_atten_loose")):
+                if msk.any():
+                    ctx.close(got[msk], want[msk], "flux:attenuation-factor:" + flags,
+                              "flux(z)/flux(0) differs from exp(-int_0^z S/v) (documented composite S) beyond the discretisation bound",
+                              atol=(tol_rel * want)[msk], monitor=mon, z=[float(z) for z in zs[msk]], tau=[float(t) for t in tau[msk]],
+                              tol_rel=[float(t) for t in tol_rel[msk]], got_over_want=[float(g_ / w_) if w_ > 0 else None for g_, w_ in zip(got[msk], want[msk])],
+                              length=L, step=a["step"])
+            if tight.any() and tau[-1] >= 0.01:
+                ctx.nontrivial()
     # ---------------- monotone decay on the axis ----------------
     zm = np.unique(np.concatenate([zs, np.linspace(0.0, L, 65)]))
     on = np.array([dens(0.0, 0.0, float(z)) for z in zm])
